@@ -16,6 +16,7 @@ EXPLANATION = (
     'positions of retryable stream faults, requests per range <= num_download_attempts, non-retryable never retried.')
 
 faulted = FT.faulted
+faulted_kind = FT.faulted_kind
 
 
 def retry_budget(kind, nretry, fatal, size, io, f1, f2, f3):
@@ -64,6 +65,8 @@ OBLIGATIONS = FT.fault_obligations('c03', 'C03') + [
          encodes=['GetObjectTask._main', 'S3_RETRYABLE_DOWNLOAD_ERRORS', 'RetriesExceededError'],
          assumptions=['S1', 'identity-content data']),
 ]
+
+OBLIGATIONS += FT.fault_kind_obligations('c03', 'C03')
 
 from harness.corace import OB_DEPS, task_dependencies  # noqa: E402
 OBLIGATIONS += [dict(OB_DEPS, id='C03.deps')]
